@@ -117,6 +117,8 @@ class Std(Scenario):
             first = not any(x.addr == a and x.n_connects for x in w.conns)
             can_api = c.close_req is None or self.api_after_close
             if ph == 'new' and can_api:
+                if left('badconnect') > 0:
+                    out.append(('badconnect', a, first))
                 if left('connect') > 0:
                     for m in (self.connects if first else self.reconnects):
                         out.append(('connect', a) + tuple(m))
@@ -167,6 +169,12 @@ class Std(Scenario):
                             out.append(('inrel', a) + tuple(x))
                     if left('pingresp') > 0:
                         out.append(('pingresp', a))
+        if left('setid') > 0:
+            live = sorted(set(r.msgId for r in w.reqs if r.pending and r.msgId and r.kind in ('pub', 'sub', 'unsub')))
+            if live:
+                out.append(('setid', 0, (live[0] - 1) % 65536))      # the counter comes round to the oldest live identifier
+                if len(live) > 1 and live[-1] != live[0]:
+                    out.append(('setid', 0, 65533))                  # ... or approaches the wrap from below
         if left('tick') > 0:
             n = len(w.ties())
             if n:
